@@ -490,8 +490,9 @@ def programs(tier, seed):
                 cmds = [["L", "A"], ["L", "B"], v, ["L", "END"]]
             P.append(number_lits(cmds, ["A", "END"] if lay != "both_consecutive" else ["B", "END"]))
     # pairs / triples
-    n2 = 900 if tier == "thorough" else 150
-    n3 = 1500 if tier == "thorough" else 150
+    n2 = 3000 if tier == "thorough" else 150
+    n3 = 5000 if tier == "thorough" else 150
+    n4 = 2500 if tier == "thorough" else 0
     for _ in range(n2):
         a, b = rnd.choice(allv), rnd.choice(allv)
         lay = rnd.choice([[a, ["L", "A"], b, ["L", "END"]], [["L", "A"], a, b, ["L", "END"]], [a, b, ["L", "A"], ["L", "END"]], [["L", "A"], a, ["L", "B"], b]])
@@ -500,6 +501,12 @@ def programs(tier, seed):
     for _ in range(n3):
         a, b, c = rnd.choice(allv), rnd.choice(allv), rnd.choice(allv)
         lay = [a, ["L", "A"], b, ["L", "B"], c, ["L", "END"]] if rnd.random() < 0.5 else [["L", "A"], a, b, ["L", "B"], ["L", "C"], c]
+        labs = [c_[1] for c_ in lay if c_[0] == "L"]
+        P.append(number_lits(copy.deepcopy(lay), labs))
+    for _ in range(n4):
+        a, b, c, d = (rnd.choice(allv) for _ in range(4))
+        lay = rnd.choice([[a, ["L", "A"], b, c, ["L", "B"], d, ["L", "END"]], [["L", "A"], a, b, ["L", "B"], c, ["L", "C"], d],
+                          [a, b, ["L", "A"], ["L", "B"], c, d, ["L", "END"]]])
         labs = [c_[1] for c_ in lay if c_[0] == "L"]
         P.append(number_lits(copy.deepcopy(lay), labs))
     # the same array operand text used twice around another literal (aliasing of parsed operands)
@@ -573,11 +580,11 @@ def main(tier, seed):
                  "returned values, and the structural preservation of the source sequence")
     specs = programs(tier, seed)
     rep.bounds = [f"{len(specs)} (program, route) pairs: every operand-kind variant of 26 instruction forms (register or literal in every position incl. array "
-                  "indices and slice bounds) alone with labels before / after / consecutive / past the end; seeded programs of 2 and 3 commands with "
+                  "indices and slice bounds) alone with labels before / after / consecutive / past the end; seeded programs of 2 and 3 commands (thorough: also 4) with "
                   "forward and backward jumps; register-pressure programs naming 14-16 R registers; an aliasing program; each through the IR route and "
                   "through text with macros / comments / bracketed arguments",
                   "all literal values, initial register and array contents symbolic; step bound 14 (source) / 60 (assembled); straight-line register-pressure programs: 30 / 100"]
-    rep.outside = ["programs longer than 3 commands (plus the register-pressure programs)", "in programs of several commands: moduli of addm / subm outside -1..3", "macro names overlapping in other ways than 'defined-later name is a prefix of an earlier one' (str.replace substitution in definition order)",
+    rep.outside = ["programs longer than 3 commands (thorough: 4), apart from the register-pressure programs", "in programs of several commands: moduli of addm / subm outside -1..3", "macro names overlapping in other ways than 'defined-later name is a prefix of an earlier one' (str.replace substitution in definition order)",
                    "quantum gate instructions (they take no literals except the immediates covered by C17)", "token-level lemmas on arbitrary strings (C17 covers printed text)"]
     rep.stubs = ["reference semantics vf/refsem.py on both sides", "text route: literals are printed as placeholder numerals 7000+j and replaced by the symbolic value after parsing"]
     chunks = [specs[i::64] for i in range(64)]
